@@ -111,14 +111,44 @@ def oracle_c02(ctx: Ctx, n):
                     ctx.finding(f"is_empty|{opname}|{ta}|{tb}", "result reports is_empty() but some environment satisfies it", {"a": ta, "b": tb}, False, True)
                 if r.is_any() and not all(comb(ev(a, e), ev(b, e)) for e in envs):
                     ctx.finding(f"is_any|{opname}|{ta}|{tb}", "result reports is_any() but some environment does not satisfy it", {"a": ta, "b": tb}, False, True)
+    for ta, tb, conn, env0 in KNOWN_WITNESSES:
+        env = witness_env(env0)
+        ok, r = safe(ctx, "oracle-C02", lambda: (parse(ta) & parse(tb)) if conn == "and" else (parse(ta) | parse(tb)))
+        if not ok:
+            continue
+        ctx.count("oracle-C02", 1, nontrivial_key=("witness", ta, tb))
+        x, y = ev(parse(ta), env), ev(parse(tb), env)
+        exp = (x and y) if conn == "and" else (x or y)
+        got = ev(r, env)
+        if got != exp:
+            ctx.finding(f"{env_class([ta, tb], env)}{conn}|{ta}|{tb}", "a & b / a | b does not evaluate as the conjunction / disjunction of its operands",
+                        {"a": ta, "b": tb, "env": _envs(env)}, exp, {"result": str(r), "value": got})
     ctx.sample({"stream": "oracle-C02", "a": parsed[0][0], "b": parsed[-1][0]})
 
 
-def pv_long_operand(texts) -> bool:
+# Fixed witnesses of the recorded finding classes: (a, b, connective, environment).  On the unchanged tree `a <connective> b` and the text
+# `a <connective> b` violate C02 / C03 in that environment, so the checks print the KNOWN-FINDING line of each class on every run
+# (and stop printing it as soon as the defect is gone).
+KNOWN_WITNESSES = [
+    ('python_version in "3.9, 3.10"', 'python_version < "3.5"', "and", {"python_version": "3.1", "python_full_version": "3.1.0"}),          # pv-in-substring
+    ('python_version <= "3.8.1"', 'python_full_version >= "3.8.3"', "and", {"python_version": "3.8", "python_full_version": "3.8.5"}),   # pv-long-operand
+    ('python_full_version < "3.13"', 'python_full_version >= "3.13"', "or", {"python_version": "3.13", "python_full_version": "3.13.0a1"}),  # nonfinal-env
+]
+
+
+def witness_env(env):
+    e = {"os_name": "posix", "sys_platform": "linux", "platform_machine": "x86_64", "platform_system": "Linux", "platform_release": "5.4.0", "platform_version": "#1 SMP",
+         "implementation_name": "cpython", "implementation_version": "3.8.1", "platform_python_implementation": "CPython", "extra": set()}
+    e.update(env)
+    return e
+
+
+def pv_long_operand(texts):
     """does some atom compare python_version with an operand that keeps more than two meaningful release segments
     (non-zero third segment; for ~=: four segments or a non-zero third)? python_version is always X.Y, so such atoms are
     constant or redundant; the code merges them with python_full_version atoms as if they were full versions (recorded finding)"""
     import re
+    found = set()      # the minor series X.Y of the long operands: the only interpreters on which such an atom is decided differently
     for t in texts:
         for m in re.finditer(r'python_version\s*(~=|==|!=|<=|>=|<|>)\s*"([^"]*)"|"([^"]*)"\s*(~=|==|!=|<=|>=|<|>)\s*python_version', t or ""):
             op, lit = (m.group(1), m.group(2)) if m.group(1) else (m.group(4), m.group(3))
@@ -128,10 +158,10 @@ def pv_long_operand(texts) -> bool:
             r = [int(x) for x in rel.group(1).split(".")]
             if op == "~=":
                 if len(r) >= 4 or (len(r) == 3 and r[2] != 0):
-                    return True
+                    found.add((r[0], r[1]))
             elif any(x != 0 for x in r[2:]):
-                return True
-    return False
+                found.add((r[0], r[1]))
+    return found
 
 
 def _add_bound(bounds, lit):
@@ -198,8 +228,12 @@ def env_class(texts, env) -> str:
     its comma-separated elements (e.g. 3.1 against "3.9, 3.10"): evaluation is PEP 508 string containment,
     the specifier view treats the list as a set of versions"""
     import re
-    if pv_long_operand(texts) and pv_pair_atoms(texts):
-        return "pv-long-operand|"
+    series = pv_long_operand(texts)
+    if series and pv_pair_atoms(texts):
+        pv = str(env.get("python_version", ""))
+        mm = re.match(r"(\d+)\.(\d+)", pv)
+        if mm and (int(mm.group(1)), int(mm.group(2))) in series:
+            return "pv-long-operand|"
     for var in ("python_full_version", "implementation_version", "platform_release"):
         val = env.get(var)
         if isinstance(val, str) and re.search(r"(a|b|rc|dev|post)\d*$", val):
@@ -266,6 +300,19 @@ def oracle_c03(ctx: Ctx, n):
             else:
                 continue
             break
+    for ta, tb, conn, env0 in KNOWN_WITNESSES:
+        t = f"{ta} {conn} {tb}"
+        env = witness_env(env0)
+        e = mg.pkg_env(env, "")
+        ctx.count("oracle-C03", 1, nontrivial_key=("witness", t))
+        try:
+            exp, got = Marker(t).evaluate(e), parse(t).evaluate(dict(e))
+        except Exception as ex:  # noqa: BLE001
+            ctx.finding(f"eval-raise|{t}", f"a witness marker raised {type(ex).__name__}", {"marker": t}, None, repr(ex))
+            continue
+        if exp != got:
+            ctx.finding(f"{env_class([t], e)}eval|{t}", "parse_marker(text).evaluate(env) differs from packaging's Marker(text).evaluate(env)",
+                        {"marker": t, "env": _envs(e)}, exp, {"parsed_as": str(parse(t)), "value": got})
     ctx.sample({"stream": "oracle-C03", "marker": texts[len(texts) // 2]})
     # set-valued extras / dependency_groups membership
     for lit, envv in itertools.product(["foo", "Foo_Bar", "foo.bar", "baz"], [set(), {"foo"}, {"foo-bar", "x"}, {"FOO.BAR"}]):
